@@ -30,6 +30,10 @@ __all__ = [
 ]
 
 
+RE_MESSAGE_FORMAT = re.compile(r"%%|%\((\w+)\)s")
+"""Matches an escaped percent sign or a named message variable."""
+
+
 class BaseTranslateFilter:
     """Base class for the default translation filters.
 
@@ -67,18 +71,23 @@ class BaseTranslateFilter:
         self, context: RenderContext, message_text: str, message_vars: dict[str, Any]
     ) -> str:
         """Return the message string formatted with the given message variables."""
-        with context.extend(namespace=message_vars):
-            _vars = {
-                k: to_liquid_string(
-                    context.resolve(k), autoescape=context.env.autoescape
-                )
-                for k in self.re_vars.findall(message_text)
-            }
+        autoescape = context.env.autoescape
 
-        # Missing variables get replaced by the current `Undefined` type and we're
-        # converting all values to a string, so a KeyError or a ValueError should
-        # be impossible.
-        return message_text % _vars
+        def _replace(match: "re.Match[str]") -> str:
+            name = match.group(1)
+            if name is None:
+                return "%"  # An escaped percent sign, `%%`.
+            return to_liquid_string(context.resolve(name), autoescape=autoescape)
+
+        # Only `%(name)s` and `%%` are special. Any other percent sign is part of
+        # the message. Missing variables get replaced by the current `Undefined`
+        # type and we're converting all values to a string.
+        with context.extend(namespace=message_vars):
+            formatted = RE_MESSAGE_FORMAT.sub(_replace, message_text)
+
+        if isinstance(message_text, Markup):
+            return Markup(formatted)
+        return formatted
 
     def _resolve_translations(self, context: RenderContext) -> Translations:
         return cast(
